@@ -230,8 +230,79 @@ func scalarFromWire(t, s string) any {
 	case "float64":
 		f, _ := strconv.ParseFloat(s, 64)
 		return f
+	case "composite":
+		return CompositeFromText(s)
 	}
 	return s
+}
+
+// CompositeFromText builds the value of a COMPOSITE leaf - a leaf may hold any Go value, also a slice or a map, at
+// any nesting (LeafNode(v) / Put(..., LeafNode(v)) with a decoded-elsewhere value) - from its JSON text: arrays
+// become []interface{}, objects map[string]interface{}, the object {"$if": {...}} a map[interface{}]interface{}
+// (what YAML decoders of the v2 generation produce for nested mappings; keys that read as integers are integers),
+// integral numbers int.  A text that is no JSON is the string itself.
+func CompositeFromText(s string) any {
+	var v any
+	if err := json.Unmarshal([]byte(s), &v); err != nil {
+		return s
+	}
+	return compositeValue(v)
+}
+
+func compositeValue(v any) any {
+	switch x := v.(type) {
+	case float64:
+		if x == math.Trunc(x) && math.Abs(x) < 1e15 {
+			return int(x)
+		}
+	case []any:
+		out := make([]interface{}, len(x))
+		for i, e := range x {
+			out[i] = compositeValue(e)
+		}
+		return out
+	case map[string]any:
+		if in, ok := x["$if"].(map[string]any); ok && len(x) == 1 {
+			m := make(map[interface{}]interface{}, len(in))
+			for k, e := range in {
+				if n, err := strconv.Atoi(k); err == nil && strconv.Itoa(n) == k {
+					m[n] = compositeValue(e)
+				} else {
+					m[k] = compositeValue(e)
+				}
+			}
+			return m
+		}
+		m := make(map[string]interface{}, len(x))
+		for k, e := range x {
+			m[k] = compositeValue(e)
+		}
+		return m
+	}
+	return v
+}
+
+// recorder is a search predicate the way callers write them: it wraps the comparison and keeps what it was shown in
+// state of its own - plain variables of the calling goroutine, no locks (the reader is one goroutine; a read call
+// that hands the caller's function to the document runs it for that reader).
+type recorder struct {
+	eq    dom.SearchValueFunc
+	calls int
+	seen  []string
+}
+
+func newRecorder(want any) *recorder { return &recorder{eq: dom.SearchEqual(want)} }
+
+func (r *recorder) fn(v interface{}) bool {
+	r.calls++
+	r.seen = append(r.seen, fmt.Sprintf("%T(%v)", v, v))
+	return r.eq(v)
+}
+
+// text: what the predicate was shown (as a multiset: the order within a container is the map's).
+func (r *recorder) text() string {
+	sort.Strings(r.seen)
+	return fmt.Sprintf("|shown %d/%d:%s", r.calls, len(r.seen), strings.Join(r.seen, ","))
 }
 
 func WireNode(w any) dom.Node {
@@ -427,9 +498,10 @@ func (s *Subject) Exec(c Call) (obs string) {
 		t, _ := c.V.(map[string]any)
 		ty, _ := t["t"].(string)
 		tx, _ := t["v"].(string)
-		r := root.Search(dom.SearchEqual(scalarFromWire(ty, tx)))
+		rec := newRecorder(scalarFromWire(ty, tx))
+		r := root.Search(rec.fn)
 		sort.Strings(r)
-		return strings.Join(r, ";")
+		return strings.Join(r, ";") + rec.text()
 	case "Container.AsMap":
 		return plainText(root.AsMap())
 	case "Container.Serialize":
@@ -523,11 +595,12 @@ func (s *Subject) execOverlay(c Call) string {
 		ty, _ := t["t"].(string)
 		tx, _ := t["v"].(string)
 		var parts []string
-		for _, co := range o.Search(dom.SearchEqual(scalarFromWire(ty, tx))) {
+		rec := newRecorder(scalarFromWire(ty, tx))
+		for _, co := range o.Search(rec.fn) {
 			parts = append(parts, co.Layer()+":"+co.Path())
 		}
 		sort.Strings(parts)
-		return strings.Join(parts, ";")
+		return strings.Join(parts, ";") + rec.text()
 	case "OverlayDocument.Merged":
 		return NodeText(s.keep(c, o.Merged(MergeOpts(c.Opt)...)))
 	case "OverlayDocument.Layers":
